@@ -77,6 +77,7 @@ func c18(r *core.Run) {
 	r.Rule("V3", "decoders own their bytes: no UnmarshalJSON method of the library keeps (a slice or byte-slice conversion of) its input parameter in the receiver - the json.Unmarshaler contract lets the caller reuse the buffer, after which a retained alias changes the value's JSON and its equality", 3)
 	r.Rule("V4", "value classes are mutually exclusive: in the store's value parser every assignment of an object class (reference, delete action, data / primitive-in-data) happens on a path where exactly one of the members rid, action, data is known to be present and the other two are known to be absent - an object mixing them is invalid, not silently classified by whichever member is tested first", 3)
 	r.Rule("V5", "a published response reaches the client's parser (shared with C19.U1): the inbox SendRequest subscribes has room for a message and nothing but the deferred release ends or limits the interest (no AutoUnsubscribe / Drain / early Unsubscribe): a service may publish a pre-response before the response, and a subscription limited to one message delivers the pre-response only - the response is then reported as system.timeout instead of what the handler supplied", 2)
+	r.Rule("B3", "the wrap decision reads the first byte only: in the data-value marshallers the encoder's output is used for len, element reads, slicing, copying and returning - it is never handed to a bytes / strings search or comparison function (an object that merely starts like a wrapper must still be wrapped, or unmarshalling strips one level)", 1)
 	r.Rule("B1", "buffer layout: each make([]byte,n) buffer in Ref.MarshalJSON, SoftRef.MarshalJSON and MarshalDataValue is exactly filled for every input length", 3)
 	r.Rule("B2", "escaping comes from the encoder: the only variable-length segment copied into those buffers is the first result of json.Marshal", 3)
 	if sr := p.Func("resprot.SendRequest"); sr != nil {
@@ -361,6 +362,43 @@ func c18(r *core.Run) {
 		fns = append(fns, m)
 	} else {
 		r.Unres("B1", "resprot.MarshalDataValue", "missing")
+	}
+	// ---- B3 --------------------------------------------------------------
+	for _, top := range fns {
+		if !strings.Contains(core.FuncName(top), "DataValue") {
+			continue
+		}
+		n := 0
+		for _, f2 := range p.Helpers(top) {
+			for _, c := range core.Calls(f2) {
+				call, ok := c.(*ssa.Call)
+				if !ok || core.CalleeName(call) != "encoding/json.Marshal" || call.Referrers() == nil {
+					continue
+				}
+				for _, rf := range *call.Referrers() {
+					ex, ok := rf.(*ssa.Extract)
+					if !ok || ex.Index != 0 || ex.Referrers() == nil {
+						continue
+					}
+					n++
+					bad := ""
+					for _, use := range *ex.Referrers() {
+						uc, ok := use.(ssa.CallInstruction)
+						if !ok {
+							continue
+						}
+						name := core.CalleeName(uc)
+						if strings.HasPrefix(name, "bytes.") || strings.HasPrefix(name, "strings.") {
+							bad = name + " at " + p.InstrPos(uc)
+						}
+					}
+					r.Check(bad == "", "B3", core.FuncName(f2), "encoder-output-not-searched", p.InstrPos(call), "the encoded value is only measured, indexed, copied and returned", "the encoded value is inspected with "+bad+": whether a value is wrapped then depends on its content (an object starting like the wrapper goes out unwrapped and is stripped of one level by the receiver)")
+				}
+			}
+		}
+		if n == 0 {
+			r.Bad("B3", core.FuncName(top), "encoder-output-not-searched", p.Pos(top.Pos()), "the data-value marshaller does not call json.Marshal")
+		}
 	}
 	for _, top := range fns {
 		// the buffer may be assembled in a private helper of the marshaller
